@@ -357,6 +357,7 @@ struct Gen {
 				o.nx = D;
 				for(int k = 0; k < D; ++k) o.x[k] = rng.range(1, std::max(1, std::min(4, maxext)));
 				int form = rng.below(D >= 2 ? 3 : 2);
+				if(o.kind == O_CTOR_CONV && !(o.var & 1) && rng.chance(1, 3)) form = 3 + rng.below(2);
 				if(o.kind == O_ASSIGN_CONV && M.at(D, o.a).count() > 0 && rng.chance(1, 2)) {
 					MArr const& a = M.at(D, o.a);
 					bool small = true;
